@@ -76,6 +76,14 @@ try:
     TIE.update(TIE_DESUGAR)
 except ImportError:
     pass
+# further entries: tools/props/_tie_<name>.py, each exposing TIE_EXTRA = {name: {...}}
+import importlib as _il
+from pathlib import Path as _P
+
+for _p in sorted(_P(__file__).resolve().parent.glob("_tie_*.py")):
+    if _p.stem == "_tie_desugar":
+        continue
+    TIE.update(getattr(_il.import_module("props." + _p.stem), "TIE_EXTRA", {}))
 
 
 def _parse_nats(out: str):
